@@ -384,6 +384,10 @@ type GetETag struct {
 type ETag string
 
 func (etag *ETag) UnmarshalText(b []byte) error {
+	// strconv.Unquote also accepts 'x' and `x`, which are not entity tags
+	if len(b) == 0 || b[0] != '"' {
+		return fmt.Errorf("webdav: failed to unquote ETag: missing opening quote")
+	}
 	s, err := strconv.Unquote(string(b))
 	if err != nil {
 		return fmt.Errorf("webdav: failed to unquote ETag: %v", err)
